@@ -34,6 +34,7 @@ def main(fn):
             r = fn_(cfg, case.inputs, path)
             out['clause_value'] = None if r is None else bool(r)
             out['reproduced'] = (r is not None) and (not bool(r))
+            if isinstance(getattr(path, 'state', None), dict) and path.state.get('why'): out['why'] = [str(w)[:400] for w in path.state['why']][:6]          # the contract's own explanation
     print(json.dumps(out, default=str))
 
 
